@@ -423,9 +423,10 @@ impl<'a> Ctx<'a> {
         t
     }
 
-    /// the same text in the other encodings (ASCII content only)
+    /// the same text in the other encodings (any content; a text that itself starts with
+    /// U+FEFF is a text with BOM and has no BOM-less UTF-8 form to compare with)
     fn encodings(&mut self, text: &str, base: &Result<Trace, String>, record: bool) {
-        if !text.is_ascii() {
+        if text.starts_with('\u{feff}') {
             return;
         }
         for enc in [Enc::Utf8Bom, Enc::Utf16Le, Enc::Utf16Be] {
